@@ -23,12 +23,14 @@ case "$FAKE_JAVA_MODE" in
     printf '%s\n' "org.javarosa.xform.parse.XFormParseException: Problem at /data/grp-a/q-1 here" >&2
     printf '\tat org.javarosa.xform.parse.XFormParser.parse(XFormParser.java:123)\n' >&2
     printf '%s\n' "Caused by XFormParser.java:99 something" >&2
+    printf '%s\n' "Type mismatch in the expression of /data/grp.b/q.2." >&2
     printf '%s\n' "Result: Invalid" >&2
     exit 1 ;;
   reject_rc2)
     printf '%s\n' "org.javarosa.xform.parse.XFormParseException: Problem at /data/grp-a/q-1 here" >&2
     printf '%s\n' "org.javarosa.xform.parse.XFormParseException: Problem at /data/grp-a/q-1 here" >&2
     printf '\tat org.javarosa.xform.parse.XFormParser.parse(XFormParser.java:123)\n' >&2
+    printf '%s\n' "Type mismatch in the expression of /data/grp.b/q.2." >&2
     printf '%s\n' "Result: Invalid" >&2
     exit 2 ;;
   reject_rc255_empty) exit 255 ;;
@@ -79,7 +81,7 @@ def form_md(form, ext):
 def msg_clean(message):
     """the scripted reject stderr, cleaned as the property says: paths as ${name}, no stack lines, no duplicate lines"""
     lines = message.splitlines()
-    return ("${q-1}" in message and "/data/grp-a/q-1" not in message and not any("\tat " in l or ".java:" in l for l in lines)
+    return ("${q-1}" in message and "/data/grp-a/q-1" not in message and "${q.2}." in message and "/data/grp.b/q.2" not in message and not any("\tat " in l or ".java:" in l for l in lines)
             and sum(1 for l in lines if "Problem at" in l) == 1 and "Result: Invalid" in message)
 
 
